@@ -23,40 +23,71 @@ theorem rightOf_eq {i : Nat} (h : i < 2^63 - 1) : rightOf i = 2 * i + 2 := by
 /-- exchange of two values of a function -/
 def swapF (f : Nat → Nat) (i j : Nat) : Nat → Nat := fun k => if k = i then f j else if k = j then f i else f k
 
-def HeapOrdF (f : Nat → Nat) (n : Nat) : Prop := ∀ i, 0 < i → i < n → f ((i - 1) / 2) ≤ f i
+theorem swapF_left (f : Nat → Nat) (a b : Nat) : swapF f a b a = f b := by simp [swapF]
+theorem swapF_right (f : Nat → Nat) (a b : Nat) : swapF f a b b = f a := by
+  simp only [swapF]; split
+  · next h => rw [h]
+  · simp
+theorem swapF_other (f : Nat → Nat) {a b i : Nat} (h1 : i ≠ a) (h2 : i ≠ b) : swapF f a b i = f i := by
+  simp [swapF, h1, h2]
+
+theorem Cmp.le_refl {c : Cmp} (hc : CmpOK c) (a : Nat) : c.le a a := by
+  rcases hc.total a a with h | h <;> exact h
+
+/-- `pred(a, b) > 0` implies `b` may stay above `a` -/
+theorem Cmp.le_of_gt {c : Cmp} (hc : CmpOK c) {a b : Nat} (h : c.gt a b = true) : c.le b a := by
+  rcases hc.total a b with h' | h'
+  · unfold Cmp.le at h'; rw [h] at h'; cases h'
+  · exact h'
+
+theorem Cmp.le_of_not_gt {c : Cmp} {a b : Nat} (h : ¬ c.gt a b = true) : c.le a b := by
+  unfold Cmp.le; cases hg : c.gt a b
+  · rfl
+  · exact absurd hg h
+
+/-- `Nat` keys with `≤` (the comparator `(a > b) - (a < b)`) are a total preorder -/
+theorem natCmp_ok : CmpOK natCmp := by
+  constructor
+  · intro a b; simp only [Cmp.le, natCmp, decide_eq_false_iff_not]; omega
+  · intro a b d; simp only [Cmp.le, natCmp, decide_eq_false_iff_not]; omega
+
+theorem natCmp_le (a b : Nat) : natCmp.le a b ↔ a ≤ b := by
+  simp only [Cmp.le, natCmp, decide_eq_false_iff_not]; omega
+
+def HeapOrdF (c : Cmp) (f : Nat → Nat) (n : Nat) : Prop := ∀ i, 0 < i → i < n → c.le (f ((i - 1) / 2)) (f i)
 
 /-- all edges hold except those from `k` to its children; `k`'s parent is below `k`'s children -/
-def DownInvF (f : Nat → Nat) (n k : Nat) : Prop :=
-  (∀ i, 0 < i → i < n → (i - 1) / 2 ≠ k → f ((i - 1) / 2) ≤ f i) ∧
-  (0 < k → ∀ i, 0 < i → i < n → (i - 1) / 2 = k → f ((k - 1) / 2) ≤ f i)
+def DownInvF (c : Cmp) (f : Nat → Nat) (n k : Nat) : Prop :=
+  (∀ i, 0 < i → i < n → (i - 1) / 2 ≠ k → c.le (f ((i - 1) / 2)) (f i)) ∧
+  (0 < k → ∀ i, 0 < i → i < n → (i - 1) / 2 = k → c.le (f ((k - 1) / 2)) (f i))
 
 /-- all edges hold except the one from `k`'s parent to `k`; `k`'s parent is below `k`'s children -/
-def UpInvF (f : Nat → Nat) (n k : Nat) : Prop :=
-  (∀ i, 0 < i → i < n → i ≠ k → f ((i - 1) / 2) ≤ f i) ∧
-  (0 < k → ∀ i, 0 < i → i < n → (i - 1) / 2 = k → f ((k - 1) / 2) ≤ f i)
+def UpInvF (c : Cmp) (f : Nat → Nat) (n k : Nat) : Prop :=
+  (∀ i, 0 < i → i < n → i ≠ k → c.le (f ((i - 1) / 2)) (f i)) ∧
+  (0 < k → ∀ i, 0 < i → i < n → (i - 1) / 2 = k → c.le (f ((k - 1) / 2)) (f i))
 
 /-- all edges not touching `k` hold; `k`'s parent is below `k`'s children -/
-def EitherInvF (f : Nat → Nat) (n k : Nat) : Prop :=
-  (∀ i, 0 < i → i < n → i ≠ k → (i - 1) / 2 ≠ k → f ((i - 1) / 2) ≤ f i) ∧
-  (0 < k → ∀ i, 0 < i → i < n → (i - 1) / 2 = k → f ((k - 1) / 2) ≤ f i)
+def EitherInvF (c : Cmp) (f : Nat → Nat) (n k : Nat) : Prop :=
+  (∀ i, 0 < i → i < n → i ≠ k → (i - 1) / 2 ≠ k → c.le (f ((i - 1) / 2)) (f i)) ∧
+  (0 < k → ∀ i, 0 < i → i < n → (i - 1) / 2 = k → c.le (f ((k - 1) / 2)) (f i))
 
-theorem heapOrdF_min {f n} (h : HeapOrdF f n) : ∀ i, i < n → f 0 ≤ f i := by
+theorem heapOrdF_min {c : Cmp} (hc : CmpOK c) {f n} (h : HeapOrdF c f n) : ∀ i, i < n → c.le (f 0) (f i) := by
   intro i
   induction i using Nat.strongRecOn with
   | _ i ih =>
     intro hi
     by_cases h0 : i = 0
-    · subst h0; exact Nat.le_refl _
+    · subst h0; exact Cmp.le_refl hc _
     · have h1 := h i (by omega) hi
       have h2 := ih ((i - 1) / 2) (by omega) (by omega)
-      omega
+      exact hc.trans _ _ _ h2 h1
 
-theorem down_done_nochild {f n k} (h : DownInvF f n k) (hl : n ≤ 2 * k + 1) : HeapOrdF f n := by
+theorem down_done_nochild {c : Cmp} {f n k} (h : DownInvF c f n k) (hl : n ≤ 2 * k + 1) : HeapOrdF c f n := by
   intro i hi hn
   exact h.1 i hi hn (by omega)
 
-theorem down_done {f n k} (h : DownInvF f n k) (hl : f k ≤ f (2 * k + 1)) (hr : 2 * k + 2 < n → f k ≤ f (2 * k + 2)) :
-    HeapOrdF f n := by
+theorem down_done {c : Cmp} {f n k} (h : DownInvF c f n k) (hl : c.le (f k) (f (2 * k + 1)))
+    (hr : 2 * k + 2 < n → c.le (f k) (f (2 * k + 2))) : HeapOrdF c f n := by
   intro i hi hn
   by_cases hp : (i - 1) / 2 = k
   · have : i = 2 * k + 1 ∨ i = 2 * k + 2 := by omega
@@ -65,30 +96,45 @@ theorem down_done {f n k} (h : DownInvF f n k) (hl : f k ≤ f (2 * k + 1)) (hr 
     · rw [hp]; exact hr hn
   · exact h.1 i hi hn hp
 
-/-- one iteration of `s_sift_down` that swaps `k` with its smaller child `c` -/
-theorem down_step {f n k c} (h : DownInvF f n k) (hc : c = 2 * k + 1 ∨ c = 2 * k + 2) (hcn : c < n)
-    (hlt : f c < f k)
-    (hl : 2 * k + 1 < n → f c ≤ f (2 * k + 1)) (hr : 2 * k + 2 < n → f c ≤ f (2 * k + 2)) :
-    DownInvF (swapF f c k) n c := by
+/-- one iteration of `s_sift_down` that swaps `k` with the child `x` chosen by the loop body -/
+theorem down_step {c : Cmp} (hc : CmpOK c) {f n k x} (h : DownInvF c f n k) (hx : x = 2 * k + 1 ∨ x = 2 * k + 2) (hxn : x < n)
+    (hlt : c.gt (f k) (f x) = true)
+    (hl : 2 * k + 1 < n → c.le (f x) (f (2 * k + 1))) (hr : 2 * k + 2 < n → c.le (f x) (f (2 * k + 2))) :
+    DownInvF c (swapF f x k) n x := by
   obtain ⟨h1, h2⟩ := h
-  have hpc : (c - 1) / 2 = k := by omega
+  have hle : c.le (f x) (f k) := Cmp.le_of_gt hc hlt
+  have hpx : (x - 1) / 2 = k := by omega
+  have hxk : x ≠ k := by omega
   constructor
   · intro i hi hn hp
-    have a1 := h1 i hi hn
-    simp only [swapF]
     by_cases hik : i = k
-    · have := h2 (by omega) c (by omega) hcn hpc
-      grind
-    · by_cases hpk : (i - 1) / 2 = k
-      · have : i = 2 * k + 1 ∨ i = 2 * k + 2 := by omega
-        grind
-      · grind
+    · -- edge parent(k) → k: k now holds f x
+      subst hik
+      rw [swapF_right, swapF_other f hp (by omega)]
+      exact h2 hi x (by omega) hxn hpx
+    · by_cases hix : i = x
+      · subst hix
+        rw [hpx, swapF_right, swapF_left]
+        exact hle
+      · by_cases hpk : (i - 1) / 2 = k
+        · -- the other child of k
+          have hi2 : i = 2 * k + 1 ∨ i = 2 * k + 2 := by omega
+          rw [hpk, swapF_right, swapF_other f hix hik]
+          rcases hi2 with rfl | rfl
+          · exact hl hn
+          · exact hr hn
+        · rw [swapF_other f hp hpk, swapF_other f hix hik]
+          exact h1 i hi hn hpk
   · intro _ i hi hn hp
+    -- grandparent of i is k, which now holds f x; i itself is untouched
+    have hix : i ≠ x := by omega
+    have hik : i ≠ k := by omega
+    rw [hpx, swapF_right, swapF_other f hix hik]
     have := h1 i hi hn (by omega)
-    simp only [swapF]
-    grind
+    rw [hp] at this
+    exact this
 
-theorem up_done {f n k} (h : UpInvF f n k) (hk : k = 0 ∨ f ((k - 1) / 2) ≤ f k) : HeapOrdF f n := by
+theorem up_done {c : Cmp} {f n k} (h : UpInvF c f n k) (hk : k = 0 ∨ c.le (f ((k - 1) / 2)) (f k)) : HeapOrdF c f n := by
   intro i hi hn
   by_cases hik : i = k
   · subst hik
@@ -98,40 +144,56 @@ theorem up_done {f n k} (h : UpInvF f n k) (hk : k = 0 ∨ f ((k - 1) / 2) ≤ f
   · exact h.1 i hi hn hik
 
 /-- one iteration of `s_sift_up` that swaps `k` with its parent -/
-theorem up_step {f n k} (h : UpInvF f n k) (hk : 0 < k) (hkn : k < n) (hlt : f k < f ((k - 1) / 2)) :
-    UpInvF (swapF f k ((k - 1) / 2)) n ((k - 1) / 2) := by
+theorem up_step {c : Cmp} (hc : CmpOK c) {f n k} (h : UpInvF c f n k) (hk : 0 < k) (hkn : k < n)
+    (hlt : c.gt (f ((k - 1) / 2)) (f k) = true) :
+    UpInvF c (swapF f k ((k - 1) / 2)) n ((k - 1) / 2) := by
   obtain ⟨h1, h2⟩ := h
+  have hle : c.le (f k) (f ((k - 1) / 2)) := Cmp.le_of_gt hc hlt
   have hpk : (k - 1) / 2 ≠ k := by omega
   constructor
   · intro i hi hn hip
-    simp only [swapF]
     by_cases hik : i = k
-    · grind
+    · subst hik
+      rw [swapF_right, swapF_left]
+      exact hle
     · have a1 := h1 i hi hn hik
       by_cases hp : (i - 1) / 2 = k
-      · have := h2 hk i hi hn hp
-        grind
-      · grind
+      · -- child of k: k now holds the old parent value
+        rw [hp, swapF_left, swapF_other f hik hip]
+        exact h2 hk i hi hn hp
+      · by_cases hpp : (i - 1) / 2 = (k - 1) / 2
+        · -- sibling of k: the parent now holds f k, below the old parent value
+          rw [hpp, swapF_right, swapF_other f hik hip]
+          rw [hpp] at a1
+          exact hc.trans _ _ _ hle a1
+        · rw [swapF_other f hp hpp, swapF_other f hik hip]
+          exact a1
   · intro hp0 i hi hn hp
     have hg1 : ((k - 1) / 2 - 1) / 2 ≠ k := by omega
     have hg2 : ((k - 1) / 2 - 1) / 2 ≠ (k - 1) / 2 := by omega
     have hgp := h1 ((k - 1) / 2) hp0 (by omega) hpk
-    simp only [swapF]
+    rw [swapF_other f hg1 hg2]
     by_cases hik : i = k
-    · grind
+    · subst hik
+      rw [swapF_left]
+      exact hgp
     · have hip : i ≠ (k - 1) / 2 := by omega
-      have := h1 i hi hn hik
-      grind
+      rw [swapF_other f hik hip]
+      have a1 := h1 i hi hn hik
+      rw [hp] at a1
+      exact hc.trans _ _ _ hgp a1
 
-theorem either_up {f n k} (h : EitherInvF f n k) (hk : 0 < k) (hlt : f k < f ((k - 1) / 2)) : UpInvF f n k := by
+theorem either_up {c : Cmp} (hc : CmpOK c) {f n k} (h : EitherInvF c f n k) (hk : 0 < k)
+    (hlt : c.gt (f ((k - 1) / 2)) (f k) = true) : UpInvF c f n k := by
   refine ⟨?_, h.2⟩
   intro i hi hn hik
   by_cases hp : (i - 1) / 2 = k
   · have := h.2 hk i hi hn hp
-    rw [hp]; omega
+    rw [hp]; exact hc.trans _ _ _ (Cmp.le_of_gt hc hlt) this
   · exact h.1 i hi hn hik hp
 
-theorem either_down {f n k} (h : EitherInvF f n k) (hk : k = 0 ∨ f ((k - 1) / 2) ≤ f k) : DownInvF f n k := by
+theorem either_down {c : Cmp} {f n k} (h : EitherInvF c f n k) (hk : k = 0 ∨ c.le (f ((k - 1) / 2)) (f k)) :
+    DownInvF c f n k := by
   refine ⟨?_, h.2⟩
   intro i hi hn hp
   by_cases hik : i = k
@@ -142,8 +204,8 @@ theorem either_down {f n k} (h : EitherInvF f n k) (hk : k = 0 ∨ f ((k - 1) / 
   · exact h.1 i hi hn hik hp
 
 /-- after the last element has been moved into slot `k` and the length reduced -/
-theorem either_of_heap {f f' n n' k} (h : HeapOrdF f n) (hn : n' ≤ n)
-    (hf : ∀ i, i < n' → i ≠ k → f' i = f i) : EitherInvF f' n' k := by
+theorem either_of_heap {c : Cmp} (hc : CmpOK c) {f f' n n' k} (h : HeapOrdF c f n) (hn : n' ≤ n)
+    (hf : ∀ i, i < n' → i ≠ k → f' i = f i) : EitherInvF c f' n' k := by
   constructor
   · intro i hi hin hik hp
     rw [hf i hin hik, hf _ (by omega) hp]
@@ -154,10 +216,10 @@ theorem either_of_heap {f f' n n' k} (h : HeapOrdF f n) (hn : n' ≤ n)
     have h1 := h i hi (by omega)
     have h2 := h k hk (by omega)
     rw [hp] at h1
-    omega
+    exact hc.trans _ _ _ h2 h1
 
 /-- a new last element -/
-theorem up_of_heap_push {f f' n} (h : HeapOrdF f n) (hf : ∀ i, i < n → f' i = f i) : UpInvF f' (n + 1) n := by
+theorem up_of_heap_push {c : Cmp} {f f' n} (h : HeapOrdF c f n) (hf : ∀ i, i < n → f' i = f i) : UpInvF c f' (n + 1) n := by
   constructor
   · intro i hi hin hik
     rw [hf i (by omega), hf _ (by omega)]
